@@ -36,7 +36,9 @@ from pathlib import Path
 import common
 import c18_audit
 import c18_gen
-from common import cstr, cbool
+import c18_tie
+import impl
+from common import cstr, cbool, clist, cpair
 
 THEOREMS = ['C18_audit_globals_readonly', 'C18_audit_ord_only_ints',
             'C18_audit_effects_allowlisted', 'C18_audit_fail_closed']
@@ -495,6 +497,134 @@ def _sweep(res, tier, seed, rng, scratch):
 
 
 # ---------------------------------------------------------------------------
+# (a) tie of the state-threaded model, on conversions done in THIS (warm)
+#     interpreter one after the other
+# ---------------------------------------------------------------------------
+
+TIE_HEADER = ('From Coq Require Import List ZArith Bool.\n'
+              'From T4V Require Import C18.Model C18.Exec.\n'
+              'Open Scope Z_scope.\n')
+STAGE_ERRORS = ('CellConversionError', 'KeyError')
+
+
+def observe(job):
+    '''Convert in-process with the observation hooks. Returns
+    (ConvResult, capture, expected) where expected is the Coq term of the
+    observed output, 'None' when the implementation raised inside the modelled
+    stage, or None when the case is outside the model.'''
+    cap = c18_tie.Capture()
+    with c18_tie.hooks(cap):
+        conv = impl.convert(job['deck'], job['args'],
+                            encoding=job.get('encoding', 'utf-8'),
+                            keep_stdout=False)
+    if cap.items is None or cap.key0 is None or cap.unsupported \
+            or cap.n_number_items != 1 or '--cache' in job['args']:
+        return conv, cap, None
+    if conv.ok:
+        try:
+            surfs, volumes = c18_tie.parse_written(conv.text)
+        except ValueError:
+            return conv, cap, None
+        return conv, cap, f'(Some {c18_tie.coq_output(surfs, volumes)})'
+    if conv.exc in STAGE_ERRORS and (conv.text is None
+                                     or 'ENDG' not in conv.text):
+        if cap.skipped is None:
+            cap.skipped = []
+        return conv, cap, 'None'
+    return conv, cap, None
+
+
+def model_tie(res, tier, rng, jobs, fresh_res, hashseeds):
+    quick = tier == 'quick'
+    limit = 150 if quick else 1500
+    order = list(range(len(jobs)))
+    rng.shuffle(order)
+    histories, current = [], []
+    n_cases = n_in = n_warm_mismatch = 0
+    size_budget = 0
+    for k in order:
+        if n_cases >= limit:
+            break
+        job = jobs[k]
+        conv, cap, expected = observe(job)
+        # warm (this interpreter, after all the earlier conversions) vs fresh
+        ref = fresh_res.get((k, hashseeds[0]))
+        if ref is not None:
+            import c18_worker
+            sha = None if conv.text is None else c18_worker.digest(
+                c18_worker.strip_cmdline(conv.text))
+            if (conv.ok, conv.exc, sha) != outcome(ref):
+                n_warm_mismatch += 1
+                res.violation(
+                    'impl-violation',
+                    'conversion in the harness interpreter (warm, after '
+                    f'{n_in} other conversions) gives {(conv.ok, conv.exc, sha)}'
+                    f', a fresh process gives {outcome(ref)} (deck '
+                    f'{job["tags"]}, args {job["args"]})',
+                    {'input': {'deck': job['deck'], 'args': job['args'],
+                               'encoding': job.get('encoding', 'utf-8')}},
+                    found_input=True)
+        n_in += 1
+        if expected is None:
+            res.count('tie:outside-model')
+            continue
+        size = sum(c18_tie.gtree_size(t) for _, t in cap.conv) \
+            + sum(c18_tie.gtree_size(t) for t in cap.cells.values()) \
+            + len(cap.items)
+        if size > (400 if quick else 1500):
+            res.count('tie:too-large')
+            continue
+        n_cases += 1
+        res.count('tie:' + ('ok' if expected != 'None' else 'stage-error'))
+        if cap.cells:
+            res.count('tie:with-cellrefs')
+        if any(len(sides) > 1 for _, sides in cap.items):
+            res.count('tie:with-aux-surfaces')
+        current.append((cpair(c18_tie.coq_input(cap), expected), job))
+        size_budget += size
+        if len(current) >= 6 or size_budget > 900:
+            histories.append(current)
+            current, size_budget = [], 0
+    if current:
+        histories.append(current)
+    cases = [clist(c for c, _ in hist) for hist in histories]
+    bad, errs = common.run_case_files(
+        'c18_hist', TIE_HEADER, 'list (input * option output)',
+        'check_history', cases, chunk=8)
+    res.obligation(f'tie:history ({n_cases} conversions in {len(cases)} '
+                   'histories: model run_history conversion = SURF/VOLU lines '
+                   'written by the implementation in a warm interpreter)',
+                   not bad and not errs,
+                   f'{len(bad)} disagreements {errs[:1]}')
+    if histories:
+        res.sample({'tie_case_deck': histories[0][0][1]['deck'],
+                    'args': histories[0][0][1]['args']})
+    for idx in bad[:5]:
+        hist = histories[idx]
+        # which conversion of the history disagrees?
+        culprit = None
+        for pos, (case, job) in enumerate(hist):
+            val, _ = common.coq_eval(TIE_HEADER, f'check_conv {case}')
+            if val is not None and 'false' in val:
+                culprit = (pos, job)
+                break
+        if culprit is None:
+            what = ('the model agrees on every conversion of the history '
+                    'taken alone but not on the history: state leaks in the '
+                    'model or the implementation')
+            job = hist[-1][1]
+        else:
+            what = (f'conversion {culprit[0]} of the history: model and '
+                    'written file disagree')
+            job = culprit[1]
+        res.violation('correspondence',
+                      f'tie:history disagreement ({what}); deck {job["tags"]} '
+                      f'args {job["args"]}',
+                      {'input': {'deck': job['deck'], 'args': job['args'],
+                                 'encoding': job.get('encoding', 'utf-8')},
+                       'theorem_or_correspondence': 'tie:history'},
+                      found_input=False)
+
 
 def run(res, tier, seed, proofs_ok):
     rng = random.Random(seed)
@@ -507,7 +637,8 @@ def run(res, tier, seed, proofs_ok):
                 'in warm processes after 1-5 other conversions; non-trivial = '
                 'a deck that converts; distinct by (deck text, options)')
     run_audit(res)
-    sweep(res, tier, seed, rng)
+    jobs, fresh_res, hashseeds = sweep(res, tier, seed, rng)
+    model_tie(res, tier, rng, jobs, fresh_res, hashseeds)
 
 
 def replay(path):
